@@ -15,8 +15,8 @@ Local Open Scope R_scope.
    model's key set and equals the update rule folded over the experience up to tol (relative), and the
    returned policy is the greedy policy of the returned table up to tol *)
 Theorem C10_fold_correspondence :
-  forall nS nA P Rw av ab ini g q0 alpha eps L evs ikeys iq ipol tol,
-  @c10_check Q NumQ (mk_mdp nS nA P Rw av ab ini g) q0 alpha eps L evs ikeys iq ipol tol = all_true6 ->
+  forall nS nA P Rw av ab ini g q0 alpha eps L evs ikeys iq ipol tol atol,
+  @c10_check Q NumQ (mk_mdp nS nA P Rw av ab ini g) q0 alpha eps L evs ikeys iq ipol tol atol = all_true6 ->
   valid_experience (mR nS nA P Rw av ab ini g) (evsR evs) = true /\
   (match L with
    | LDouble => forall s, In s (qkeys (qR nS nA P Rw av ab ini g q0 alpha eps L evs)) <-> In s ikeys
@@ -24,7 +24,7 @@ Theorem C10_fold_correspondence :
   (forall s a, In s (qkeys (qR nS nA P Rw av ab ini g q0 alpha eps L evs)) ->
                In a (acts (mR nS nA P Rw av ab ini g) s) ->
      Rabs (iqR iq s a - qval (qR nS nA P Rw av ab ini g q0 alpha eps L evs) s a)
-     <= Q2R tol * (1 + Rabs (qval (qR nS nA P Rw av ab ini g q0 alpha eps L evs) s a))) /\
+     <= Q2R tol * (1 + Rabs (qval (qR nS nA P Rw av ab ini g q0 alpha eps L evs) s a)) + Q2R atol) /\
   (forall s a, (s < nS)%nat -> (a < nA)%nat ->
      Rabs (ipolR ipol s a - greedy_policy (mR nS nA P Rw av ab ini g) (mkQ ikeys (iqR iq)) s a)
      <= Q2R tol * (1 + Rabs (greedy_policy (mR nS nA P Rw av ab ini g) (mkQ ikeys (iqR iq)) s a))).
@@ -179,8 +179,8 @@ Print Assumptions C10_td_policy.
    absorbing state, one self-loop step) on which the check accepts for Q-learning and double Q-learning,
    the hypotheses of the interval and absorbing theorems hold (I = [-2,4]), and the fold moves the table *)
 Theorem C10_nonvacuous :
-  @c10_check Q NumQ exM exQ0 (1#2)%Q (1#20)%Q LQ exEvs exKeys exIQ exPol (1#1000000000000)%Q = all_true6 /\
-  @c10_check Q NumQ exM exQ0 (1#2)%Q (1#20)%Q LDouble exEvs exKeysD exIQD exPol (1#1000000000000)%Q = all_true6 /\
+  @c10_check Q NumQ exM exQ0 (1#2)%Q (1#20)%Q LQ exEvs exKeys exIQ exPol (1#1000000000000)%Q 0%Q = all_true6 /\
+  @c10_check Q NumQ exM exQ0 (1#2)%Q (1#20)%Q LDouble exEvs exKeysD exIQD exPol (1#1000000000000)%Q 0%Q = all_true6 /\
   Forall (ev_ok (-1) 2) (evsR exEvs) /\
   valid_experience (mR 3 2 exP exRw exAv exAb exIni (1#2)%Q) (evsR exEvs) = true /\
   (forall L s a, -2 <= qval (qR 3 2 exP exRw exAv exAb exIni (1#2)%Q exQ0 (1#2)%Q (1#20)%Q L exEvs) s a <= 4) /\
